@@ -79,7 +79,7 @@ def readValue (minBuf minRead : Nat) : Nat → St → Out × St
         let fl := internalParseFlags s.remain
         match parseValue fl 0 (fuelFor s.remain) s.remain with
         | .ok k r =>
-          if !r.isEmpty || s.err.isSome || !k.isNum then
+          if !r.isEmpty || s.err == some .eof || !k.isNum then     -- `dec.err == io.EOF`: only the end of the stream completes a number
             let (rem, n) := skipN r
             let vlen := s.remain.length - r.length
             some (.value (s.remain.take vlen) k, { s with remain := rem, offset := s.offset + vlen + n })
